@@ -211,6 +211,12 @@ def _write_desc(clo, w, S=None, frame=None):
             plain = [b for b in binops(st["init"]) if b in ("Add", "Sub")]
             els = st.get("els")
             ab = bool(els) and any(norm(c.get("callee", "")) == "std::process::abort" for c in exprs(els, "Call"))
+            if not els:
+                # the same refutable binding written as `let level = match .. { Some(l) => l, _ => abort() }`
+                i0 = strip(st["init"])
+                if i0.get("k") == "Match":
+                    ab = any(any(norm(c.get("callee", "")) == "std::process::abort" for c in exprs(a_["body"], "Call")) and
+                             not any(p_.get("k") == "PBinding" for p_ in walk(a_["pat"])) for a_ in i0["arms"])
             if not cs and S is not None:
                 # `update(b.get())` with `update` a closure the caller handed in: the arithmetic is in that closure
                 for c in exprs(st["init"], "Call"):
